@@ -13,6 +13,7 @@ import (
 	"os/exec"
 	"path/filepath"
 	"runtime"
+	"runtime/debug"
 	"sort"
 	"strconv"
 	"strings"
@@ -221,6 +222,13 @@ func Par(n int, fn func(i int)) {
 		wg.Add(1)
 		go func() {
 			defer wg.Done()
+			defer func() {
+				if r := recover(); r != nil {
+					notePanic(r)
+					for range ch { // drain so that the producer does not block
+					}
+				}
+			}()
 			for i := range ch {
 				fn(i)
 			}
@@ -231,6 +239,30 @@ func Par(n int, fn func(i int)) {
 	}
 	close(ch)
 	wg.Wait()
+}
+
+var (
+	panicMu   sync.Mutex
+	panicNote string
+)
+
+// notePanic remembers the first panic that escaped a check body (or one of its Par workers).
+func notePanic(r any) {
+	panicMu.Lock()
+	defer panicMu.Unlock()
+	if panicNote == "" {
+		st := string(debug.Stack())
+		var keep []string
+		for _, l := range strings.Split(st, "\n") {
+			if strings.Contains(l, "Manticore") || strings.Contains(l, "/verif/") {
+				keep = append(keep, strings.TrimSpace(l))
+			}
+			if len(keep) >= 16 {
+				break
+			}
+		}
+		panicNote = fmt.Sprintf("%v @ %s", r, strings.Join(keep, " | "))
+	}
 }
 
 // Try runs f and reports a panic with the innermost Manticore frame:
@@ -503,7 +535,26 @@ func Main(id, level string, body func(c *Ctx)) {
 		}
 	}
 
-	body(c)
+	func() {
+		defer func() {
+			if r := recover(); r != nil {
+				notePanic(r)
+			}
+		}()
+		body(c)
+	}()
+	panicMu.Lock()
+	pn := panicNote
+	panicMu.Unlock()
+	if pn != "" {
+		// The library (or the harness, driven by what the library returned) panicked outside any
+		// vf.Try. On the unchanged tree this never happens; with an edited tree it is a symptom of
+		// the edit, so it is reported as a violation of its own obligation, not as a harness error.
+		c.Check(id+"/check-ran-to-completion-without-panic", false, func() string { return "the check was aborted by a panic: " + pn })
+		c.Cap("check aborted by a panic; coverage is partial")
+	} else {
+		c.Pass(id+"/check-ran-to-completion-without-panic", 1)
+	}
 
 	if out := os.Getenv("VERIF_SHARD_OUT"); out != "" {
 		c.writeShard(out)
